@@ -143,3 +143,27 @@ PLAN["C08"] = {
     ],
     "scope_note": "Verus: next_inplace unbounded (without the frame above the cut). Kani: complete per length 1..256 (cmp, next), per size LutN 0..12 / Lut 0..14.",
 }
+
+
+PLAN["C17"] = {
+    "level": "proof",
+    "technique": "Kani contract triples {invalid argument} call {no execution returns; every failing check is a profile-independent assert/bounds check} on every index-, assignment-, operand- and block-taking public method of Lut and LutN per size, with the invalid argument symbolic over the whole usize range; Verus verification of the kernels in both profile variants (debug_assert lines kept / deleted) for the valid-argument half",
+    "level_text": "For every listed method and size n = 0..8 of both types, Kani proves that with ANY out-of-range index / assignment / mismatched operand / wrong block length (symbolic over all of usize) no execution returns from the call, and that the only failing checks are always-on assert!/assert_eq!/slice checks (a failing debug_assert or overflow check, which exist only in debug builds, fails the obligation). For valid arguments, Verus proves each kernel free of overflow and assertion failure against the same contract in the debug variant (debug_assert lines are obligations) and the release variant (lines deleted), and the Kani triples of C01/C03/C08/C11 report no overflow.",
+    "level_note": "Trusted: Kani/CBMC, Verus/Z3/vstd, rustc. Reduction (paper, checked syntactically each run): the only profile-dependent constructs in the crate are debug_assert* and arithmetic-overflow checks. Kani follows a failing debug_assert no further, so a later always-on check that would also stop a release build is not credited.",
+    "verus_units": ["kernels"],
+    "kani_units": ["spec_ops.rs", "c17_panics.rs"],
+    "kani_filters": {"quick": ["c17q_"], "thorough": ["c17t_"]},
+    "panic_re": r"c17[qt]_p_",
+    "kani_scope": {r"_s_": "complete(LutN, fixed N: all tables, invalid argument over all of usize)", r"_d_": "complete(Lut, fixed n: all tables, invalid argument over all of usize)"},
+    "harness_timeout": {"quick": 600, "thorough": 3600},
+    "profile_scan": True,
+    "functions": ["Lut::/StaticLut::{value, get_bit, set_bit, unset_bit, set_value, nth_var, flip, flip_inplace, swap, swap_inplace, swap_adjacent, swap_adjacent_inplace, cofactors, from_cofactors, top_decomposition, is_pos_unate, is_neg_unate, from_blocks}",
+                  "Lut::{and, or, xor, and_inplace, or_inplace, xor_inplace, bdd_complexity} and the 18 binary operator-trait forms with operands of different sizes",
+                  "decomposition::input_property_helper (assert! guards)", "check_var / check_lut / check_bit"]
+                 + ["operations::" + f + " (both profile variants, Verus)" for f in _KERNEL_FUNCS],
+    "assumptions": _VERUS_ASSUMED + [
+        "sizes n = 0..8 (the property's range); mismatched-size pairs: (0,1) (3,2) (5,6) (6,7) (7,8) (8,4) (2,7)",
+        "the valid-argument half for wrappers relies on the triples of C01/C03/C06/C08/C11 (Kani checks overflow on every path they explore)",
+    ],
+    "scope_note": "Kani: complete per size n = 0..8 and per method; invalid argument over all of usize. Verus: kernels in debug and release variants, unbounded.",
+}
